@@ -200,6 +200,11 @@ async fn run_case(case: &Case) -> CaseOut {
     // last frame received by the master from each outstation (link activity), for the keep-alive rule
     let mut last_activity: Vec<u64> = vec![rig.now_ms(); n];
     let mut queue: Vec<Vec<(u32, u64)>> = vec![vec![]; n]; // user requests submitted, not yet transmitted: (id, t_submit)
+    // when a user request of each association was last transmitted
+    let mut last_user_tx: Vec<Option<(u64, u64)>> = vec![None; n];
+    let mut user_tx_count: u64 = 0;
+    // more requests waiting than the master's message channel holds: the master may not know all of them yet
+    let mut saturated = false;
     let mut next_user: u32 = 0;
     let mut chatter_seq: u8 = 0;
     let mut outstanding: Option<Outstanding> = None;
@@ -311,6 +316,25 @@ async fn run_case(case: &Case) -> CaseOut {
                         };
                         match &what {
                             What::User(id) => {
+                                // associations take turns: between two user requests of this association, every other
+                                // association whose request has been waiting since before the first of them is served
+                                if let (Some((t1, n1)), false) = (last_user_tx[a], saturated) {
+                                    for (b, q) in queue.iter().enumerate() {
+                                        if b != a {
+                                            if let Some((idb, tsb)) = q.first() {
+                                                let served_since = last_user_tx[b].map(|(_, nb)| nb > n1).unwrap_or(false);
+                                                if *tsb < t1 && !served_since {
+                                                    out.fail(Fail::new("associations-do-not-take-turns", format!("user request {id} of {dst} transmitted at t={t}; that association was last served at t={t1}, but request {idb} of {} has been waiting since t={tsb}", addr(b))).with_sig("C19 turns".to_string()));
+                                                }
+                                            }
+                                        }
+                                    }
+                                    if queue.iter().enumerate().filter(|(b, q)| *b != a && !q.is_empty()).count() >= 2 {
+                                        out.label("three_associations_backlogged");
+                                    }
+                                }
+                                user_tx_count += 1;
+                                last_user_tx[a] = Some((t, user_tx_count));
                                 // submission order per association
                                 match queue[a].first() {
                                     Some((first, ts)) if first == id => {
@@ -408,6 +432,9 @@ async fn run_case(case: &Case) -> CaseOut {
                 // a further one fails with TooManyRequests instead of being queued
                 pendings.lock().unwrap().insert(id, (p, queue[a].len() >= 16));
                 queue[a].push((id, rig.now_ms()));
+                if queue.iter().map(|q| q.len()).sum::<usize>() >= 15 {
+                    saturated = true;
+                }
             }
             Op::SubmitWrite(a) => {
                 let a = (*a as usize * n) >> 16;
@@ -418,6 +445,9 @@ async fn run_case(case: &Case) -> CaseOut {
                 rig.settle().await;
                 pendings.lock().unwrap().insert(id, (p, queue[a].len() >= 16));
                 queue[a].push((id, rig.now_ms()));
+                if queue.iter().map(|q| q.len()).sum::<usize>() >= 15 {
+                    saturated = true;
+                }
             }
             Op::Chatter(a) => {
                 let a = (*a as usize * n) >> 16;
